@@ -188,18 +188,41 @@ pub fn gen_datagram(rng: &mut Rng, ids: &Ids, st: &mut GenState) -> (String, Vec
     let fs = *rng.pick(&[1u16, 16, 1024, 65535]);
     wire::data_frag(&mut out, le, &DataFragMsg { reader_id: rid, writer_id: weid, sn: st.sn + 1 + rng.below(4) as i64, frag_start: 1, frags_in_submsg: 1, frag_size: fs, sample_size: size, inline_qos: None, key_flag: false, bytes: vec![1; (fs as usize).min(200)] }, true);
     label = "datafrag-huge-sample-size".into();
-  } else if choice < 66 {
+  } else if choice < 64 {
     // inconsistent with an assembly in progress, or nonsense parameters
     let (sn, _total, _fs, _size) = st.partial_sn.unwrap_or((st.sn + 1, 3, 16, 40));
     let fs = boundary_u16(rng);
     let blen = rng.below(80) as usize;
     wire::data_frag(&mut out, le, &DataFragMsg { reader_id: rid, writer_id: weid, sn: if rng.chance(2, 3) { sn } else { boundary_i64(rng) }, frag_start: boundary_u32(rng).min(70000), frags_in_submsg: boundary_u16(rng), frag_size: fs, sample_size: *rng.pick(&[0u32, 1, 3, 4, 17, 40, 41, 100, 65536]), inline_qos: None, key_flag: rng.chance(1, 4), bytes: vec![9; blen] }, rng.chance(1, 2));
     label = "datafrag-inconsistent-parameters".into();
+  } else if choice < 69 {
+    // DATAFRAG whose octetsToInlineQos points at, just before or just beyond the end of the body
+    let payload_len = rng.below(24) as usize;
+    let body_len = 32 + payload_len; // fixed part (4 + 28) + payload
+    let o2q = match rng.below(4) {
+      0 => *rng.pick(&[0u16, 4, 27, 28, 29, 32, 100, 65535, 65532]),
+      _ => (body_len as i64 - 4 + rng.range(-6, 34)).clamp(0, 65535) as u16,
+    };
+    let mut w = wire::W::new(le);
+    w.u16(0);
+    w.u16(o2q);
+    w.bytes(&rid);
+    w.bytes(&weid);
+    w.sn(st.sn + 1 + rng.below(3) as i64);
+    w.u32(1);
+    w.u16(1);
+    w.u16(16);
+    w.u32(40);
+    let pl = rng.bytes(payload_len);
+    w.bytes(&pl);
+    wire::submsg(&mut out, wire::ID_DATA_FRAG, if rng.chance(1, 4) { 0x02 } else { 0 }, le, &w.buf);
+    label = "datafrag-lying-octets-to-inline-qos".into();
   } else if choice < 74 {
     // DATA with lying octetsToInlineQos / flags / inline qos
     let mut w = wire::W::new(le);
     w.u16(0);
-    w.u16(*rng.pick(&[0u16, 4, 12, 16, 20, 100, 65535]));
+    let near_end = (20 + rng.range(-6, 40)).clamp(0, 65535) as u16;
+    w.u16(*rng.pick(&[0u16, 4, 12, 16, 20, 100, 65535, near_end, near_end]));
     w.bytes(&rid);
     w.bytes(&weid);
     w.sn(if rng.chance(1, 2) { st.sn + 1 } else { boundary_i64(rng) });
